@@ -57,6 +57,7 @@ Edge == <<                                        \* shapes on the three edges o
   G("MultiPolygon", <<<<Rect(4, 16, 8, 48)>>, <<Rect(0, 0, 12, 64), Rect(2, 8, 10, 56)>>>>),
   G("Polygon", <<<<<<2, 16>>, <<8, 16>>, <<8, 48>>, <<2, 48>>>>>>),
   G("MultiPolygon", <<<<<<<<0, 0>>, <<4, 0>>, <<4, 32>>, <<0, 32>>>>, <<<<1, 8>>, <<3, 8>>, <<3, 24>>, <<1, 24>>>>>>>>),
+  G("Polygon", <<Rect(0, 0, 12, 64), Rect(2, 8, 5, 56), Rect(7, 8, 10, 56)>>),          \* two holes
   \* areal shapes one sub-tick wide: with the time buffer BT[7] = 4e6 sub-ticks they are 2.5e-7 of the buffer wide
   G("Polygon", <<Rect(8, 16, 9, 48)>>),
   G("MultiPolygon", <<<<Rect(8, 0, 9, 32)>>, <<Rect(12, 16, 16, 48)>>>>),
@@ -131,6 +132,11 @@ EqB2 == <<1024, 8>>
 CornerProbes(g) == LET o == Bounds(g, FMAXS) IN
     <<<<o[3] + EqB1[1] - 1, o[4] + EqB1[2] - 1>>, <<o[3] + EqB1[1] - 2, o[4] + EqB1[2] - 2>>, <<o[3] + EqB1[1] - 40, o[4] + EqB1[2] - 1>>,
       <<o[3] + EqB1[1] - 1, o[4] + EqB1[2]>>, <<o[3] + EqB1[1], o[4] + EqB1[2] - 1>>>>
+\* time intervals on two-decimal times, given to the binder as decimal numerals (real doubles, not lattice values), with the
+\* buffers 0, 0.1, 0.25, 1.5 s: see Buffer!RealClauses
+RealTimes == <<<<"43.28", "45.57">>, <<"0.1", "0.3">>, <<"12.34", "56.78">>, <<"3.3", "9.9">>, <<"100.01", "100.07">>, <<"0.07", "7.77">>, <<"2.2", "2.2">>>>
+RealBufs  == <<"0", "0.1", "0.25", "1.5">>
+RealCase(q) == [real |-> TRUE, start |-> RealTimes[((q - 1) \div 4) + 1][1], end |-> RealTimes[((q - 1) \div 4) + 1][2], buf |-> RealBufs[((q - 1) % 4) + 1]]
 \* tiny buffers around zero (Buffer!TinyNames): each on the time axis with a positive frequency buffer, on the frequency
 \* axis with a positive time buffer, and on both; two runs per case
 TinyRuns == LET N == <<"-1e-9", "-1e-10", "-1e-12", "-5e-324", "-0.0">> IN
@@ -139,14 +145,15 @@ TinyRuns == LET N == <<"-1e-9", "-1e-10", "-1e-12", "-5e-324", "-0.0">> IN
           [] q <= 10 -> [b |-> <<2, 0>>,  e |-> <<"", n>>]
           [] OTHER   -> [b |-> <<0, 0>>,  e |-> <<n, n>>]]
 TinyOf(d, run) == TinyRuns[IF run = 1 THEN 2 * d.tn - 1 ELSE Min(2 * d.tn, 15)]
-Descriptors == UNION {UNION {{[gi |-> gi, i |-> i, j |-> j, neg |-> 0, tn |-> 0, u |-> u, ty |-> q] : u \in UnitsOf(gi, i, j), q \in TypesOf(gi, i, j)} :
+Descriptors == UNION {UNION {{[gi |-> gi, i |-> i, j |-> j, neg |-> 0, tn |-> 0, u |-> u, ty |-> q, rl |-> 0] : u \in UnitsOf(gi, i, j), q \in TypesOf(gi, i, j)} :
                                  i \in TimeIdx(Geoms[gi]), j \in 1..NF(Geoms[gi])} : gi \in 1..Len(Geoms)}
-          \cup {[gi |-> gi, i |-> 1, j |-> 1, neg |-> n, u |-> (n % 3) + 1, ty |-> <<1, 2, 5>>[((gi + n) % 3) + 1], tn |-> 0] : gi \in 1..Len(Geoms), n \in 1..3}
-          \cup {[gi |-> gi, i |-> 1, j |-> 1, neg |-> 0, tn |-> q, u |-> (q % 3) + 1, ty |-> 2] : gi \in 1..Len(Geoms), q \in 1..8}
-          \cup {[gi |-> gi, i |-> 1, j |-> 1, neg |-> 0, tn |-> 9, u |-> 1, ty |-> 2] : gi \in {q \in 1..Len(Geoms) : Rectilinear(Geoms[q])}}
+          \cup {[gi |-> gi, i |-> 1, j |-> 1, neg |-> n, u |-> (n % 3) + 1, ty |-> <<1, 2, 5>>[((gi + n) % 3) + 1], tn |-> 0, rl |-> 0] : gi \in 1..Len(Geoms), n \in 1..3}
+          \cup {[gi |-> gi, i |-> 1, j |-> 1, neg |-> 0, tn |-> q, u |-> (q % 3) + 1, ty |-> 2, rl |-> 0] : gi \in 1..Len(Geoms), q \in 1..8}
+          \cup {[gi |-> 1, i |-> 1, j |-> 1, neg |-> 0, tn |-> 0, u |-> 1, ty |-> 2, rl |-> q] : q \in 1..(4 * Len(RealTimes))}
+          \cup {[gi |-> gi, i |-> 1, j |-> 1, neg |-> 0, tn |-> 9, u |-> 1, ty |-> 2, rl |-> 0] : gi \in {q \in 1..Len(Geoms) : Rectilinear(Geoms[q])}}
 B1(d) == IF d.tn = 9 THEN EqB1 ELSE IF d.tn > 0 THEN TinyOf(d, 1).b ELSE IF d.neg = 0 THEN <<BT[d.i], BF[d.j]>> ELSE NegPairs[d.neg][1]
 B2(d) == IF d.tn = 9 THEN EqB2 ELSE IF d.tn > 0 THEN TinyOf(d, 2).b ELSE IF d.neg = 0 THEN <<BT[UpT(Geoms[d.gi], d.i)], BF[UpF(d.j)]>> ELSE NegPairs[d.neg][2]
-Concrete(d) == [g |-> Geoms[d.gi], b1 |-> B1(d), b2 |-> B2(d), u |-> d.u,
+Concrete(d) == IF d.rl > 0 THEN RealCase(d.rl) ELSE [g |-> Geoms[d.gi], b1 |-> B1(d), b2 |-> B2(d), u |-> d.u,
                 probes |-> IF d.tn = 9 THEN Probes(Geoms[d.gi]) \o CornerProbes(Geoms[d.gi]) ELSE Probes(Geoms[d.gi]),
                 e1 |-> IF d.tn \in 1..8 THEN TinyOf(d, 1).e ELSE NoTiny, e2 |-> IF d.tn \in 1..8 THEN TinyOf(d, 2).e ELSE NoTiny,
                 t1 |-> ArgTypes(BufTypes[d.ty], B1(d), d.u), t2 |-> ArgTypes(BufTypes[d.ty], B2(d), d.u)]
@@ -157,7 +164,7 @@ Init == /\ c \in {d \in Descriptors : (d.gi * 7 + d.i * 3 + d.j + d.neg) % GeomS
 Outcome(g, b, e) == IF NegativeRun(b, e) THEN <<"raise:ValueError">>
                  ELSE IF g.type \in ClosedKinds THEN <<BufClosed(g, b).type, BufClosed(g, b).coordinates>>
                  ELSE <<"relational">>
-Compute == ph = "in" /\ ph' = "out" /\ res' = <<Outcome(Geoms[c.gi], B1(c), Concrete(c).e1), Outcome(Geoms[c.gi], B2(c), Concrete(c).e2)>> /\ c' = c
+Compute == ph = "in" /\ ph' = "out" /\ res' = (IF c.rl > 0 THEN <<<<"real">>, <<"real">>>> ELSE <<Outcome(Geoms[c.gi], B1(c), Concrete(c).e1), Outcome(Geoms[c.gi], B2(c), Concrete(c).e2)>>) /\ c' = c
 Next == Compute
 vars == <<c, ph, res>>
 Spec == Init /\ [][Next]_vars
@@ -166,7 +173,7 @@ Export == ph = "out" => PrintT(<<"CASE", ToJson(Concrete(c))>>)
 
 (* ---- laws of the specification, for every geometry of the catalogue and ALL ordered buffer pairs ---- *)
 \* (they depend on the geometry only: evaluated once per geometry, in the state after Compute)
-LawAt == ph = "out" /\ c.i = 1 /\ c.j = 1 /\ c.neg = 0 /\ c.tn = 0 /\ c.u = (CHOOSE u \in UnitsOf(c.gi, 1, 1) : TRUE)
+LawAt == ph = "out" /\ c.i = 1 /\ c.j = 1 /\ c.neg = 0 /\ c.tn = 0 /\ c.rl = 0 /\ c.u = (CHOOSE u \in UnitsOf(c.gi, 1, 1) : TRUE)
          /\ c.ty = (CHOOSE q \in TypesOf(c.gi, 1, 1) : TRUE)
 GG == Geoms[c.gi]
 PP == Range(Probes(GG))
